@@ -14,3 +14,15 @@ CHECKS["C05"] = ("metamorphic property-based testing (same generated script unde
 CHECKS["C03"] = ("property-based testing with an independent model validator (printed definitions substituted for declarations, evaluated by z3, re-checked by cvc5)",
                  "Generated sat-leaning scripts in all model-supporting logics; every get-model / get-value / get-assignment output after sat is validated against the active assertions. Exploration only.",
                  REF, "DESIGN.md §4 C03")
+CHECKS["C06"] = ("property-based testing with a core validator (assertion-stack model + z3/cvc5 on the claimed core)",
+                 "Generated unsat-leaning scripts with named/unnamed/nested/duplicate names and push/pop; each unsat core is checked for scope, repetition, being current assertions and unsatisfiability. Exploration only.",
+                 REF, "DESIGN.md §4 C06")
+CHECKS["C07"] = ("property-based testing: each minimal core is re-checked for irreducibility with z3+cvc5 (certified sat after removing one element)",
+                 "Generated scripts with :minimal-unsat-cores; every single-element removal from every reported core must be satisfiable. Exploration only.",
+                 REF, "DESIGN.md §4 C07")
+CHECKS["C08"] = ("property-based testing with an interpolant validator (z3+cvc5 for the two implications, own symbol check)",
+                 "Generated unsat scripts with named assertions under all interpolation algorithms/options and push/pop; each binary interpolant is checked for A=>I, I/\\B unsat and the shared-symbol condition. Exploration only.",
+                 REF, "DESIGN.md §4 C08")
+CHECKS["C09"] = ("property-based testing with a path-interpolant validator (z3+cvc5)",
+                 "Generated unsat scripts with k>=3 ordered groups; each result is a Craig interpolant for its prefix and consecutive interpolants satisfy the path property. Exploration only.",
+                 REF, "DESIGN.md §4 C09")
